@@ -647,7 +647,7 @@ def main(chk: core.Check, replay: typing.Optional[str] = None) -> int:
         doc = json.load(open(replay))
         cases = [doc['case']] if 'case' in doc else dg.corpus()
     else:
-        n_random = 4 if quick else 60
+        n_random = 4 if quick else 36
         cases = dg.corpus() + [gen.case(chk.rng.choice([5, 8, 8, 10])) for _ in range(n_random)]
     configs = all_configs()
     if 'F-C06-PY-POD' in live:
